@@ -12,7 +12,7 @@ use wirm::module_builder::AddLocal;
 use wirm::opcode::Opcode;
 use wirm::{Component, Module};
 
-const PATHS: &[&str] = &["modifier", "modifier_bulk", "moditer", "compiter", "localfn", "builder", "builder_comp"];
+const PATHS: &[&str] = &["modifier", "modifier_bulk", "moditer", "compiter", "localfn", "builder", "builder_comp", "replaced"];
 
 struct FuncShape {
     params: Vec<usize>,            // indices into TYS
@@ -138,7 +138,26 @@ pub fn run(ctx: &mut Ctx) {
             let t = if r.chance(1, 4) { twin(t).unwrap_or(t) } else { t };
             adds.push(t);
         }
+        let builder = path.starts_with("builder");
+        // a function that takes the place of an import (`replace_import_in_module`): its signature is the import's, the
+        // numbers of parameters and of results differ most of the time, and it may already declare locals of its own
+        let replaced = path == "replaced";
+        // the function the additions go to: an existing one, or a freshly built one
+        let bparams: Vec<usize> = if builder || replaced { (0..r.below(4)).map(|_| r.below(TYS.len())).collect() } else { vec![] };
+        let bresults: Vec<usize> = if replaced { (0..r.below(4)).map(|_| r.below(4)).collect() } else { vec![] };
+        let bpre: Vec<usize> = if replaced { (0..r.below(3)).map(|_| r.below(TYS.len())).collect() } else { vec![] };
         let mut wat = String::from("(module\n");
+        if replaced {
+            wat.push_str("  (import \"e\" \"imp\" (func");
+            for p in &bparams {
+                wat.push_str(&format!(" (param {})", TYS[*p].wat));
+            }
+            for q in &bresults {
+                wat.push_str(&format!(" (result {})", TYS[*q].wat));
+            }
+            wat.push_str("))\n");
+            ctx.count(&format!("replaced:params-vs-results={}", if bparams.len() == bresults.len() { "equal" } else if bparams.len() < bresults.len() { "fewer-params" } else { "more-params" }));
+        }
         for (i, f) in funcs.iter().enumerate() {
             wat.push_str(&func_wat(f, i));
         }
@@ -151,11 +170,10 @@ pub fn run(ctx: &mut Ctx) {
         };
         // what the *input* declares (after `wat`'s own grouping), function by function
         let before = decode_funcs(&bytes).expect("input decodes");
-        let builder = path.starts_with("builder");
-        // the function the additions go to: an existing one, or a freshly built one
-        let bparams: Vec<usize> = if builder { (0..r.below(4)).map(|_| r.below(TYS.len())).collect() } else { vec![] };
         let (nparams, mut old_locals): (usize, Vec<u32>) = if builder {
             (bparams.len(), vec![])
+        } else if replaced {
+            (bparams.len(), bpre.iter().map(|t| TYS[*t].code).collect())
         } else {
             (before[target].0.len(), before[target].1.clone())
         };
@@ -213,8 +231,38 @@ pub fn run(ctx: &mut Ctx) {
                     }
                     *first_cell.borrow_mut() = Some(m.encode());
                 }
-                let decls = if builder { vec![] } else { stored_decls(&m, target) };
+                let mut decls = if builder || replaced { vec![] } else { stored_decls(&m, target) };
                 match path {
+                    "replaced" => {
+                        use wirm::Opcode;
+                        let ps: Vec<wirm::DataType> = bparams.iter().map(|p| TYS[*p].dt).collect();
+                        let rs: Vec<wirm::DataType> = bresults.iter().map(|p| TYS[*p].dt).collect();
+                        let mut fb = FunctionBuilder::new(&ps, &rs);
+                        for t in &bpre {
+                            fb.add_local(TYS[*t].dt);
+                        }
+                        for q in &bresults {
+                            match *q {
+                                0 => fb.i32_const(1),
+                                1 => fb.i64_const(1),
+                                2 => fb.f32_const(1.0),
+                                _ => fb.f64_const(1.0),
+                            };
+                        }
+                        fb.replace_import_in_module(&mut m, wirm::ir::id::ImportsID(0));
+                        // the replaced import keeps function id 0 until the module is encoded
+                        decls = stored_decls(&m, 0);
+                        if case % 2 == 0 {
+                            let mut fm = m.functions.get_fn_modifier(FunctionID(0)).ok_or("no modifier")?;
+                            for d in &add_dts {
+                                ids.push(*fm.add_local(*d));
+                            }
+                        } else {
+                            for d in &add_dts {
+                                ids.push(*m.functions.unwrap_local(FunctionID(0)).add_local(*d));
+                            }
+                        }
+                    }
                     "modifier" => {
                         let mut fm = m.functions.get_fn_modifier(fid).ok_or("no modifier")?;
                         for d in &add_dts {
@@ -299,7 +347,25 @@ pub fn run(ctx: &mut Ctx) {
                         continue;
                     }
                 };
-                let tgt = if builder { after.len() - 1 } else { target };
+                // the function that replaced the import: the one whose removal leaves the original functions
+                let tgt = if builder {
+                    after.len() - 1
+                } else if replaced {
+                    match (0..after.len()).find(|k| {
+                        let mut rest = after.clone();
+                        rest.remove(*k);
+                        rest == before
+                    }) {
+                        Some(k) => k,
+                        None => {
+                            ctx.impl_line(&format!("locals {case} ids={} expanded=?", show_nats(&ids)));
+                            ctx.fail("locals", case, "C14", "other-function-changed", &format!("path={path} no function of the output can be the replaced import"));
+                            continue;
+                        }
+                    }
+                } else {
+                    target
+                };
                 let (aparams, alocals) = &after[tgt];
                 // the bulk path returns no ids: the model's ids are compared only when the API reports them
                 let shown_ids = if path == "modifier_bulk" {
@@ -330,10 +396,16 @@ pub fn run(ctx: &mut Ctx) {
                 if aparams.len() != nparams {
                     bad = Some(("params-changed".into(), format!("{} vs {nparams}", aparams.len())));
                 }
-                if !builder && *aparams != before[target].0 {
+                if (builder || replaced) && *aparams != bparams.iter().map(|p| TYS[*p].code).collect::<Vec<u32>>() {
+                    bad = Some(("params-changed".into(), String::new()));
+                }
+                if !builder && !replaced && *aparams != before[target].0 {
                     bad = Some(("params-changed".into(), String::new()));
                 }
                 for (k, f) in before.iter().enumerate() {
+                    if replaced {
+                        break; // established above: the output without the target is the input
+                    }
                     if (builder || k != target) && after.get(k) != Some(f) {
                         bad = Some(("other-function-changed".into(), format!("function {k}")));
                     }
